@@ -12,7 +12,9 @@ package lexer
 //@ spec shapeA(lr) = len(lr.history) == 0 || (len(lr.history) == 2 && !lr.ungetFlg && lr.history[0] == '.' && !unicode.IsDigit(lr.history[1]))
 //@ # after skipSpace: empty, or one rune left behind a pending '.'
 //@ spec shapeS(lr) = len(lr.history) == 0 || (len(lr.history) == 1 && lr.ungetFlg && lr.char == '.' && !unicode.IsDigit(lr.history[0]))
-//@ spec wfA(l) = l != nil && wfr(l.reader) && shapeA(l.reader)
+//@ # NUL-freedom of the input and its consequence for pending zeros (reader contracts)
+//@ spec Z(lr) = noNUL(lr) && zeroEOF(lr)
+//@ spec wfA(l) = l != nil && wfr(l.reader) && shapeA(l.reader) && Z(l.reader)
 //@ # a "peek": the last rune read is pushed back; nothing is lost relative to the entry measure
 //@ spec peeked(lr) = lr.ungetFlg && N(lr) + ite(lr.char != 0, 2, 0) <= old(M(lr))
 
@@ -20,10 +22,11 @@ package lexer
 //@   safe
 //@   terminates
 //@   requires wfA(l)
-//@   ensures wfr(l.reader) && sameInput(l.reader) && shapeS(l.reader) && peeked(l.reader)
+//@   ensures wfr(l.reader) && sameInput(l.reader) && shapeS(l.reader) && peeked(l.reader) && zeroEOF(l.reader)
 //@   ensures !unicode.IsSpace(l.reader.char) || l.reader.char == '\n'
-//@   loop 0 invariant wfr(l.reader) && sameInput(l.reader) && !l.reader.ungetFlg && l.reader.char == char
+//@   loop 0 invariant wfr(l.reader) && sameInput(l.reader) && !l.reader.ungetFlg && l.reader.char == char && zeroEOF(l.reader)
 //@   loop 0 invariant N(l.reader) + ite(l.reader.char != 0, 2, 0) <= old(M(l.reader))
+//@   loop 0 invariant l.reader.char == 0 ==> l.reader.pos == len(l.reader.runes) && len(l.reader.history) == 0
 //@   loop 0 invariant len(l.reader.history) == 0 || (len(l.reader.history) == 1 && char == '.' && !unicode.IsDigit(l.reader.history[0]))
 //@   loop 0 decreases N(l.reader) + ite(l.reader.char != 0, 2, 0)
 
@@ -32,48 +35,48 @@ package lexer
 //@ func (*ti/lexer.Lexer).lexToSpaceTokenEat
 //@   safe
 //@   terminates
-//@   requires l != nil && wfr(l.reader) && H0(l.reader)
-//@   ensures wfr(l.reader) && sameInput(l.reader) && H0(l.reader) && peeked(l.reader)
+//@   requires l != nil && wfr(l.reader) && H0(l.reader) && Z(l.reader)
+//@   ensures wfr(l.reader) && sameInput(l.reader) && H0(l.reader) && peeked(l.reader) && zeroEOF(l.reader)
 //@   ensures len(result.buf) >= 1
-//@   loop 0 invariant wfr(l.reader) && sameInput(l.reader) && H0(l.reader) && M(l.reader) <= old(M(l.reader))
+//@   loop 0 invariant wfr(l.reader) && sameInput(l.reader) && H0(l.reader) && M(l.reader) <= old(M(l.reader)) && zeroEOF(l.reader)
 //@   loop 0 invariant len(buf.buf) >= 1
 //@   loop 0 decreases M(l.reader)
 
 //@ func (*ti/lexer.Lexer).lexToNotIdentifierTokenEat
 //@   safe
 //@   terminates
-//@   requires l != nil && wfr(l.reader) && H0(l.reader)
-//@   ensures wfr(l.reader) && sameInput(l.reader) && H0(l.reader) && peeked(l.reader)
+//@   requires l != nil && wfr(l.reader) && H0(l.reader) && Z(l.reader)
+//@   ensures wfr(l.reader) && sameInput(l.reader) && H0(l.reader) && peeked(l.reader) && zeroEOF(l.reader)
 //@   ensures len(result.buf) >= 1
-//@   loop 0 invariant wfr(l.reader) && sameInput(l.reader) && H0(l.reader) && M(l.reader) <= old(M(l.reader))
+//@   loop 0 invariant wfr(l.reader) && sameInput(l.reader) && H0(l.reader) && M(l.reader) <= old(M(l.reader)) && zeroEOF(l.reader)
 //@   loop 0 invariant len(buf.buf) >= 1
 //@   loop 0 decreases M(l.reader)
 
 //@ func (*ti/lexer.Lexer).lexHexDigits
 //@   safe
 //@   terminates
-//@   requires l != nil && wfr(l.reader) && H0(l.reader)
-//@   ensures wfr(l.reader) && sameInput(l.reader) && H0(l.reader) && peeked(l.reader)
+//@   requires l != nil && wfr(l.reader) && H0(l.reader) && Z(l.reader)
+//@   ensures wfr(l.reader) && sameInput(l.reader) && H0(l.reader) && peeked(l.reader) && zeroEOF(l.reader)
 //@   ensures len(result.buf) >= 1
-//@   loop 0 invariant wfr(l.reader) && sameInput(l.reader) && H0(l.reader) && M(l.reader) <= old(M(l.reader))
+//@   loop 0 invariant wfr(l.reader) && sameInput(l.reader) && H0(l.reader) && M(l.reader) <= old(M(l.reader)) && zeroEOF(l.reader)
 //@   loop 0 invariant len(buf.buf) >= 1
 //@   loop 0 decreases M(l.reader)
 
 //@ func (*ti/lexer.Lexer).skipLineComment
 //@   safe
 //@   terminates
-//@   requires l != nil && wfr(l.reader) && H0(l.reader)
-//@   ensures wfr(l.reader) && sameInput(l.reader) && H0(l.reader) && peeked(l.reader)
-//@   loop 0 invariant wfr(l.reader) && sameInput(l.reader) && H0(l.reader) && M(l.reader) <= old(M(l.reader))
+//@   requires l != nil && wfr(l.reader) && H0(l.reader) && Z(l.reader)
+//@   ensures wfr(l.reader) && sameInput(l.reader) && H0(l.reader) && peeked(l.reader) && zeroEOF(l.reader)
+//@   loop 0 invariant wfr(l.reader) && sameInput(l.reader) && H0(l.reader) && M(l.reader) <= old(M(l.reader)) && zeroEOF(l.reader)
 //@   loop 0 decreases M(l.reader)
 
 //@ func (*ti/lexer.Lexer).lexString
 //@   safe
 //@   terminates
-//@   requires l != nil && wfr(l.reader) && H0(l.reader)
-//@   ensures wfr(l.reader) && sameInput(l.reader) && H0(l.reader) && M(l.reader) <= old(M(l.reader))
+//@   requires l != nil && wfr(l.reader) && H0(l.reader) && Z(l.reader)
+//@   ensures wfr(l.reader) && sameInput(l.reader) && H0(l.reader) && M(l.reader) <= old(M(l.reader)) && zeroEOF(l.reader)
 //@   ensures typeis(l.val, "string")
-//@   loop 0 invariant wfr(l.reader) && sameInput(l.reader) && H0(l.reader) && M(l.reader) <= old(M(l.reader))
+//@   loop 0 invariant wfr(l.reader) && sameInput(l.reader) && H0(l.reader) && M(l.reader) <= old(M(l.reader)) && zeroEOF(l.reader)
 //@   loop 0 decreases M(l.reader)
 
 //@ # reserved words map to parser token kinds: every value stored in `reserved` is the rune NIL
@@ -88,10 +91,10 @@ package lexer
 //@ func (*ti/lexer.Lexer).lexDigit
 //@   safe
 //@   terminates
-//@   requires l != nil && wfr(l.reader) && H0(l.reader) && l.reader.ungetFlg && unicode.IsDigit(l.reader.char)
-//@   ensures wfr(l.reader) && sameInput(l.reader) && shapeA(l.reader) && M(l.reader) < old(M(l.reader))
+//@   requires l != nil && wfr(l.reader) && H0(l.reader) && l.reader.ungetFlg && unicode.IsDigit(l.reader.char) && Z(l.reader)
+//@   ensures wfr(l.reader) && sameInput(l.reader) && shapeA(l.reader) && M(l.reader) < old(M(l.reader)) && Z(l.reader)
 //@   ensures (l.tok == base.INT && typeis(l.val, "int64")) || (l.tok == base.FLOAT && typeis(l.val, "float64"))
-//@   loop 0 invariant wfr(l.reader) && sameInput(l.reader) && H0(l.reader)
+//@   loop 0 invariant wfr(l.reader) && sameInput(l.reader) && H0(l.reader) && zeroEOF(l.reader)
 //@   loop 0 invariant ite(l.reader.ungetFlg, M(l.reader) == old(M(l.reader)) && unicode.IsDigit(l.reader.char), M(l.reader) <= old(M(l.reader)) - 2)
 //@   loop 0 decreases M(l.reader)
 
@@ -99,12 +102,12 @@ package lexer
 //@ func (*ti/lexer.Lexer).lexIdentifier
 //@   safe
 //@   terminates
-//@   requires l != nil && wfr(l.reader) && H0(l.reader) && l.reader.ungetFlg && l.reader.char != 0 && isIdentifierChar(l.reader.char)
+//@   requires l != nil && wfr(l.reader) && H0(l.reader) && l.reader.ungetFlg && l.reader.char != 0 && isIdentifierChar(l.reader.char) && Z(l.reader)
 //@   requires reservedOK() && reserved != nil && tblOK()
-//@   ensures wfr(l.reader) && sameInput(l.reader) && H0(l.reader) && M(l.reader) < old(M(l.reader))
+//@   ensures wfr(l.reader) && sameInput(l.reader) && H0(l.reader) && M(l.reader) < old(M(l.reader)) && zeroEOF(l.reader)
 //@   ensures (l.tok == base.UNKNOWN || l.tok == base.NIL) && typeis(l.val, "ti/lexer.Identifier")
 //@   ensures len(unbox(l.val, "ti/lexer.Identifier").name) > 0 && tblOK() && reservedOK()
-//@   loop 0 invariant wfr(l.reader) && sameInput(l.reader) && H0(l.reader)
+//@   loop 0 invariant wfr(l.reader) && sameInput(l.reader) && H0(l.reader) && zeroEOF(l.reader)
 //@   loop 0 invariant ite(l.reader.ungetFlg, M(l.reader) == old(M(l.reader)) && l.reader.char == old(l.reader.char), M(l.reader) <= old(M(l.reader)) - 2)
 //@   loop 0 invariant !l.reader.ungetFlg ==> len(buf.buf) >= 1
 //@   loop 0 decreases M(l.reader)
@@ -133,6 +136,7 @@ package lexer
 //@   ensures[C03] result ==> parserKind(l.tok)
 //@   ensures[C03] result ==> valueMatches(l)
 //@   ensures[C03] !result ==> l.reader.char == 0
-//@   ensures[C03] !result ==> l.reader.pos == len(l.reader.runes) && len(l.reader.history) == 0
-//@   witness post:3.0#7 "x = `ls`\ny = 1\n" expect "read error"
-//@   witness post:6.0#0 "x = 1\n\x00\ny = 1 + \"a\"\n" expect-not "type mismatch"
+//@   # "every rune of the input is consumed": false is returned only at the very end of the input ...
+//@   ensures[C02,C03] !result ==> atEOF(l.reader)
+//@   # ... and from then on the lexer stays there
+//@   ensures[C02,C03] old(atEOF(l.reader)) ==> !result && M(l.reader) <= old(M(l.reader))
